@@ -173,7 +173,15 @@ Proof. unfold read_card. apply single_stream_call_bounded. Qed.
 (* the other single-exchange calls run under the 60 s packet timeout *)
 Corollary get_system_info_bounded cfg w :
   let '(_, w') := get_system_info cfg w in w_now w <= w_now w' <= w_now w + Bt TIMEOUT.
-Proof. unfold get_system_info. apply single_stream_call_bounded. Qed.
+Proof.
+  unfold get_system_info.
+  match goal with |- context [consume LOOPFUEL cfg (start_retry ?q TIMEOUT) w ?a ?h ?fin] =>
+    pose proof (single_stream_call_bounded cfg q TIMEOUT w a h fin LOOPFUEL) as K;
+    destruct (consume LOOPFUEL cfg (start_retry q TIMEOUT) w a h fin) as [[si|e] w1] end; [|exact K].
+  assert (D : w_now (drop_cur w1) = w_now w1) by (unfold drop_cur; destruct (w_cur w1); reflexivity).
+  destruct (first_pos si) as [[| dev | | | | | |]|]; try (rewrite D; exact K).
+  destruct (list_eqb _ _); [exact K|rewrite D; exact K].
+Qed.
 Corollary initialize_bounded cfg w :
   let '(_, w') := initialize cfg w in w_now w <= w_now w' <= w_now w + Bt TIMEOUT.
 Proof. unfold initialize. apply single_stream_call_bounded. Qed.
@@ -330,9 +338,16 @@ Proof. pose proof (call_attempts cfg q T w acc h fin fuel) as K. destruct (consu
 Lemma set_terminal_id_attempts cfg w :
   let '(_, w') := set_terminal_id cfg w in (attempts (w_log w') <= attempts (w_log w) + 40)%nat.
 Proof.
-  unfold set_terminal_id, get_system_info.
-  match goal with |- context [consume LOOPFUEL cfg (start_retry ?q TIMEOUT) w ?a ?h ?fin] =>
-    pose proof (single_attempts cfg q TIMEOUT w a h fin LOOPFUEL) as K; destruct (consume LOOPFUEL cfg (start_retry q TIMEOUT) w a h fin) as [[si|e] w1] end; [|lia].
+  unfold set_terminal_id.
+  assert (K : (attempts (w_log (snd (get_system_info cfg w))) <= attempts (w_log w) + 20)%nat).
+  { unfold get_system_info.
+    match goal with |- context [consume LOOPFUEL cfg (start_retry ?q TIMEOUT) w ?a ?h ?fin] =>
+      pose proof (single_attempts cfg q TIMEOUT w a h fin LOOPFUEL) as K0; destruct (consume LOOPFUEL cfg (start_retry q TIMEOUT) w a h fin) as [[si|e] w0] end;
+      cbn [snd]; [|exact K0].
+    assert (D : attempts (w_log (drop_cur w0)) = attempts (w_log w0)) by (unfold drop_cur; destruct (w_cur w0); reflexivity).
+    destruct (first_pos si) as [[| dev | | | | | |]|]; cbn [snd]; try (rewrite D; exact K0).
+    destruct (Client.list_eqb _ _); cbn [snd]; [exact K0|rewrite D; exact K0]. }
+  destruct (get_system_info cfg w) as [[si|e] w1]; cbn [snd] in K; [|lia].
   destruct (Client.list_eqb _ _); [lia|]. destruct (digits_value _) as [tidn|]; [|lia]. destruct (99999999 <? tidn); [lia|].
   match goal with |- context [consume LOOPFUEL cfg (start_retry ?q TIMEOUT) w1 ?a ?h ?fin] =>
     pose proof (single_attempts cfg q TIMEOUT w1 a h fin LOOPFUEL) as K2; destruct (consume LOOPFUEL cfg (start_retry q TIMEOUT) w1 a h fin) as [r2 w2] end.
@@ -397,4 +412,22 @@ Proof.
     destruct (s_txs _); [|lia].
     pose proof (end_of_day_attempts cfg {| s_txs := remove_tok tok (s_txs st); s_max := s_max st |} w1) as K2.
     destruct (end_of_day cfg _ w1) as [[r2 st2] w2]. lia.
+Qed.
+
+(* ================================================================== a different serial number outside the handshake (since the fix of F18) *)
+(* whenever get_system_info (configure's own identity question) fails with "wrong device", no connection is kept: the next sequence
+   starts by connecting, with registration and a fresh identity check *)
+Theorem wrong_serial_in_configure_abandons_connection cfg w w' :
+  get_system_info cfg w = (RErr EWrongDevice, w') -> w_cur w' = None.
+Proof.
+  unfold get_system_info.
+  match goal with |- context [consume ?f cfg ?r w ?a ?h ?fin] =>
+    assert (NW : fst (consume f cfg r w a h fin) <> RErr EWrongDevice);
+    [apply (consume_result (fun x : cres value => x <> RErr EWrongDevice) cfg h fin);
+       [intros acc; discriminate
+       |intros acc i v res acc' Hh; unfold h_sysinfo in Hh; injection Hh as <- _; destruct (i =? _); discriminate]
+    |destruct (consume f cfg r w a h fin) as [[si|e] w1]] end.
+  - destruct (first_pos si) as [[| dev | | | | | |]|]; try (intros [= <-]; apply drop_cur_clears).
+    destruct (Client.list_eqb _ _); [discriminate|intros [= <-]; apply drop_cur_clears].
+  - intros E. injection E as E1 E2. exfalso. cbn [fst] in NW. apply NW. rewrite E1. reflexivity.
 Qed.
